@@ -10,6 +10,7 @@ import (
 	"sort"
 	"strings"
 	"sync"
+	"time"
 )
 
 // TB is the part of testing.TB / rapid.T the harness needs.
@@ -287,3 +288,26 @@ func Tier() string {
 
 // ReplayOnly reports whether only the replay inputs are to be run (./check --replay).
 func ReplayOnly() bool { return os.Getenv("VERIF_REPLAY_ONLY") == "1" }
+
+// Watch arms a per-case watchdog: if the returned stop function is not called within d the case is
+// written to $VERIF_REPLAY_OUT.hang and the process exits with status 3, which the driver reports as
+// inconclusive (exit 2) — except for C15, which owns "requests never finish" and uses its own
+// structural confirmation.
+func Watch(c any, d time.Duration) func() {
+	done := make(chan struct{})
+	go func() {
+		select {
+		case <-done:
+		case <-time.After(d):
+			if p := os.Getenv("VERIF_REPLAY_OUT"); p != "" {
+				b, _ := json.Marshal(c)
+				_ = os.WriteFile(p+".hang", b, 0o644)
+			}
+			fmt.Printf("VERIF-HANG case did not finish within %s: %s\n", d, Hash(c))
+			Flush()
+			os.Exit(3)
+		}
+	}()
+
+	return func() { close(done) }
+}
